@@ -10,7 +10,7 @@ Monitors
      (before/after sha256 snapshot + sys.addaudithook write log);
  (d) termination: parse-step budget (3000 rule applications per token + 50000).
 """
-import hashlib, os, random, shutil, subprocess, sys, tempfile
+import hashlib, os, random, re, shutil, subprocess, sys, tempfile
 from collections import Counter
 from vlib import spec as S, gen, render, project, tool, lexer, monitors
 from vlib.probes import run_probes
@@ -53,7 +53,7 @@ def corrupt(toks, r):
     t = [x for x, _ in toks]
     n = len(t)
     kind = r.choice(['delete', 'duplicate', 'swap', 'truncate', 'insert', 'bracket', 'misspell', 'comment',
-                     'glue', 'delete', 'insert', 'truncate', 'separator', 'separator'])
+                     'glue', 'delete', 'insert', 'truncate', 'separator', 'separator', 'rename'])
     i = r.randrange(n)
     if kind == 'delete':
         del t[i]
@@ -94,6 +94,28 @@ def corrupt(toks, r):
             t.insert(i, '/*')                      # a region commented out
         else:
             t.insert(i, '*/')                      # stray closer
+    elif kind == 'rename':
+        # one occurrence of an identifier misspelled (a typedef then names a template nobody declares, a
+        # constructor no longer carries its class name, ...): either still a valid file or loudly rejected
+        idx = [j for j, x in enumerate(t) if re.match(r'^[A-Za-z_]\w*$', x) and x not in MISSPELL and
+               x not in ('const', 'static', 'virtual', 'class', 'enum', 'struct', 'namespace', 'typedef', 'template',
+                         'operator', 'pair', 'std', 'This', 'void', 'include')]
+        targets = []
+        for j, x in enumerate(t):
+            if x == 'typedef':
+                k = j + 1
+                while k < n and t[k] not in ('<', ';'):
+                    k += 1
+                if k < n and t[k] == '<' and (k - 1) in idx:
+                    targets.append(k - 1)       # the template a typedef instantiates
+        if targets and r.random() < 0.5:
+            j = r.choice(targets)
+            t[j] = t[j] + '_zz'
+        elif idx:
+            j = r.choice(idx)
+            t[j] = t[j] + '_zz'
+        else:
+            t.insert(i, 'zz')
     elif kind == 'separator':
         # a stray delimiter at a structural position: trailing / leading / doubled separators of lists and blocks
         closers = [j for j, x in enumerate(t) if x in (')', '}', '>')]
@@ -270,6 +292,20 @@ def run_entry_points(text, sb, acc, budget):
         if d:
             d['what'] = 'accepted input with lexemes lost or invented'
             vs.append(d)
+    # validation clause: a typedef that names a template nobody declares cannot be understood as a declaration
+    undeclared = None
+    if accepted:
+        try:
+            from vlib import ref_inst
+            model, _ = project.project(tree)
+            for _, it in S.walk_items(model.items):
+                if it.k == 'Typedef' and len(ref_inst.find_template(model, it.type.ns, it.type.name)) == 0:
+                    undeclared = '::'.join(it.type.ns + (it.type.name,))
+                    break
+        except Exception:
+            undeclared = None
+        if undeclared:
+            acc.count('typedef_of_undeclared_template_inputs')
     # 2..4 generators; file-system clause
     old = sb.root
     os.chdir(sb.cwd)
@@ -302,6 +338,9 @@ def run_entry_points(text, sb, acc, budget):
                 acc.count('successful_runs')
                 if not accepted:
                     vs.append({'what': '%s succeeded on an input the parser rejects' % name})
+                elif undeclared:
+                    vs.append({'what': '%s succeeded although a typedef names the undeclared template %s '
+                                       '(the declaration was dropped instead of reported)' % (name, undeclared)})
                 sb.fill()
                 os.chdir(sb.cwd)
                 open(sb.input, 'w').write(text)
